@@ -14,6 +14,7 @@ RULE = ("sum_of_products_pippinger for EVERY window 1..=20 x both groups x n in 
         "operands re-derived by the monitor); the table-driven variant with library-built tables; find_pippinger_window on "
         "all boundaries. Expected values are sums of independent model scalar multiplications. A case is (op, group, "
         "window, n, scalar-family mix, point-multiset features, outcome, build) re-derived from the logged operands")
+RULE += (" " + "Also: the full 5x5 grid of (#points, #scalars) on every entry point; the caller's table layout varied (exact chunks, rest-of-buffer slices filled last table first, rebuilt in place, own-point filler).")
 ASSUMPTIONS = ["model: affine double-and-add, one independent multiplication per term", "scalars at or above 2^255 are outside the documented domain and are not judged"]
 EXHAUSTIVE = ["Pippenger window sizes 1..=20 for G1 and G2", "window-selection boundaries b-1, b, b+1 (all 16 in thorough, up to 6492 in quick)",
               "single-bit scalars 2^i for every i in 0..=254"]
